@@ -41,6 +41,8 @@ package timer
 //@     invariant forall p int :: old(evlen) <= p && p < evlen ==> !(isCall(ev(p)) && evch(ev(p)) == fncode(final))
 //@     iter ensures [one-interval-apart] forall p int :: old(evlen) <= p && p < evlen && isCall(ev(p)) && evch(ev(p)) == fncode(f) ==>
 //@             p > old(evlen) && isRecv(ev(p - 1)) && intval(evval(ev(p - 1))) >= old(t) + interval.Interval.Duration.Duration
+//@     iter ensures [t-is-the-delivered-time] forall p int :: old(evlen) <= p && p < evlen && isRecv(ev(p)) && evch(ev(p)) == timer ==>
+//@             t == intval(evval(ev(p)))
 //@     iter ensures [at-most-one-firing-per-round] ncalls(f) <= old(ncalls(f)) + 1
 
 //@ spec func oneKind(definition schema.TimerEventDefinition) bool =
